@@ -104,6 +104,7 @@ type run struct {
 	c      *rig.SClient
 	target *rig.SBackendConn // the backend whose received custom payloads are judged
 	sent   int
+	giveUp bool
 	nbar   int
 	name   string
 	note   []string
@@ -174,6 +175,10 @@ func (x *run) finish(bc *rig.SBackendConn, n int) {
 	if !bc.AwaitFinishAck(1, x.e.long) {
 		x.notef("backend saw no finish ack")
 	}
+	// the proxy installs the handler that understands JoinGame only after it wrote this
+	// acknowledgement; a JoinGame that overtakes it is forwarded raw and the player never
+	// joins (join() then gives the run up)
+	time.Sleep(30 * time.Millisecond)
 }
 
 // join lets the backend send JoinGame and waits until the client has it and the proxy
@@ -190,6 +195,7 @@ func (x *run) join(bc *rig.SBackendConn, n int) {
 		return x.e.pc[x.name] >= n
 	}) {
 		x.notef("no ServerPostConnectEvent #%d", n)
+		x.giveUp = true // the join never completed: nothing can be judged from this run
 	}
 }
 
@@ -273,6 +279,13 @@ func (x *run) why() string {
 // finishRun waits (generously) until everything sent reached the target, then records
 // what the target received, whether the player was disconnected, and the end.
 func (x *run) finishRun() {
+	if x.giveUp {
+		x.emit(tracefmt.Rec{"ev": "abort", "notes": x.note})
+		if x.c != nil {
+			_ = x.c.Close()
+		}
+		return
+	}
 	if x.target != nil {
 		x.target.Wait(4*time.Second, func(l []rig.Recv, closed bool) bool {
 			return closed || x.disconnected() || len(received(l, x.target.Proto)) >= x.sent
@@ -500,6 +513,9 @@ func TestSched(t *testing.T) {
 			x.finish(bc, 1)
 			x.join(bc, 1)
 			x.finishRun()
+			if x.giveUp {
+				continue
+			}
 			if len(samples) < 2 && s.K > 1 {
 				samples = append(samples, map[string]any{"order": s.Order, "passed": passed, "trace": x.recs})
 			}
